@@ -39,6 +39,7 @@ def configs(tier):
 
 
 KEY = None
+TMIN = 0.25          # the time interval does not start at 0 (a candidate drawn as tmin + tmax*U would leave it)
 
 
 def build(kind, start, every, d=1, ncomp=1, time_first=False, system=False, odd=False, sel_t=2, hetero=False):
@@ -64,7 +65,7 @@ def build(kind, start, every, d=1, ncomp=1, time_first=False, system=False, odd=
         params = ParamsDict(nn_params={k: nets[k].init_params() for k in nets}, eq_params={"kappa": jnp.array(1.3)})
         loss = SystemLossODE(u_dict=nets, dynamic_loss_dict={"e1": Eq(idx=1, Tmax=1), "e0": Eq(idx=0, Tmax=1)},
                              loss_weights=LossWeightsODEDict(dyn_loss=1.0, initial_condition=1.0, observations=1.0), params_dict=params)
-        data = DG.DataGeneratorODE(key, 9, 0.0, 1.0, 2, rar_parameters=rp, nt_start=3)
+        data = DG.DataGeneratorODE(key, 9, TMIN, 1.0, 2, rar_parameters=rp, nt_start=3)
         sizes = dict(times=(9, 3, 2))
     elif kind == "ode":
         u = mk_pinn(1, 1, "ODE", deg=1, H=1)
@@ -75,7 +76,7 @@ def build(kind, start, every, d=1, ncomp=1, time_first=False, system=False, odd=
         params = Params(nn_params=u.init_params(), eq_params={"kappa": jnp.array(1.3)})
         loss = LossODE(u=u, dynamic_loss=Eq(Tmax=1), params=params)
         nt_tot = 8 if odd else 9              # odd: the free room (5) is not a multiple of the selected size (2)
-        data = DG.DataGeneratorODE(key, nt_tot, 0.0, 1.0, 2, rar_parameters=rp, nt_start=3)
+        data = DG.DataGeneratorODE(key, nt_tot, TMIN, 1.0, 2, rar_parameters=rp, nt_start=3)
         sizes = dict(times=(nt_tot, 3, sel_t))
     elif kind == "statio":
         u = mk_pinn(d, 1, "statio_PDE", deg=1, H=1)
@@ -100,7 +101,7 @@ def build(kind, start, every, d=1, ncomp=1, time_first=False, system=False, odd=
         n_, n0_, nt_, nt0_ = (13, 4, 7, 3) if time_first else ((9, 4, 8, 3) if odd else (10, 4, 9, 3))
         rp = dict(rp, selected_sample_size_omega=3)
         data = DG.CubicMeshPDENonStatio(key=key, n=n_, nb=None, nt=nt_, omega_batch_size=2, omega_border_batch_size=None, temporal_batch_size=2, dim=d,
-                                        min_pts=(0.0,) * d, max_pts=(1.0,) * d, tmin=0.0, tmax=1.0, rar_parameters=rp, n_start=n0_, nt_start=nt0_)
+                                        min_pts=(0.0,) * d, max_pts=(1.0,) * d, tmin=TMIN, tmax=1.0, rar_parameters=rp, n_start=n0_, nt_start=nt0_)
         sizes = dict(times=(nt_, nt0_, 2), omega=(n_, n0_, 3))
     return data, loss, params, sizes
 
